@@ -79,6 +79,12 @@ pub struct PktParser<'l> {
     offset: usize,
 }
 
+/* A name has at most 127 labels (RFC1035 Section 2.3.4), and a well formed name has at least one
+ * label in front of every compression pointer, so no well formed name (in particular none that our
+ * own encoder produces) needs more pointers than that.  The bound is what stops pointer loops.
+ */
+const MAX_COMPRESSION_DEPTH: i32 = 127;
+
 impl<'l> PktParser<'l> {
     pub const fn new(buffer: &'l [u8]) -> PktParser<'l> {
         PktParser { buffer, offset: 0 }
@@ -141,7 +147,7 @@ impl<'l> PktParser<'l> {
                     domainv.push(dnspkt::Label::from(self.get_bytes(prefix as usize)?));
                 }
                 offset_high if offset_high & 0b1100_0000 == 0b1100_0000 => {
-                    if depth > 10 {
+                    if depth > MAX_COMPRESSION_DEPTH {
                         return Err("Compression Corruption".into());
                     }
                     // Compressed label.
